@@ -31,6 +31,7 @@ CHECKS['C02'] = {
     ],
     'units': [
         unit('crash', 'keepstore_c02', '^TestVerifC02Crash$', {'shards': 15, 'checks': 4}, {'shards': 16, 'checks': 80, 'timeout': 3000}),
+        unit('overlap', 'keepstore_c02', '^TestVerifC02Overlap$', {'shards': 8, 'checks': 6}, {'shards': 16, 'checks': 60, 'timeout': 3000}),
         unit('realkill', 'keepstore_c02', '^TestVerifC02RealKill$', None, {'shards': 8, 'checks': 3, 'timeout': 1500}),
         unit('indexfault', 'keepstore_c02', '^TestVerifC02IndexFault$', {'shards': 1, 'checks': 40}, {'shards': 4, 'checks': 1500, 'timeout': 1500}),
     ],
